@@ -153,6 +153,56 @@ def _root_.SF.View.ReadyStable (V : View α) : Prop :=
   ∀ s x s', (∃ v, V.last s = .ok (some v)) → V.upd s x = .ok s' → V.last s' ≠ .ok none
 
 
+
+/-! ### EhlersFisherTransform: its output queue never empties again, whatever its moving average does -/
+theorem eftEmit_len (ma : View α) (m : ma.σ) (qOut : List α) (high low v : α) (r : ma.σ × List α)
+    (h : eftEmit ma m qOut high low v = .ok r) : qOut.length ≤ r.2.length := by
+  unfold eftEmit at h
+  split at h
+  · simp only [pure, Except.pure] at h; cases h; simp
+  · simp only [bind, Except.bind] at h
+    split at h
+    · cases h
+    · split at h
+      · cases h
+      · rename_i o ho
+        cases o with
+        | none => simp only [pure, Except.pure] at h; cases h; simp
+        | some sm =>
+          simp only at h
+          split at h
+          · simp only [pure, Except.pure] at h; cases h; simp
+          · simp only [bind, Except.bind, assertFinite_exact, pure, Except.pure] at h
+            split at h
+            · cases h
+            · cases h; simp
+
+theorem eft (N : Nat) (ma : View α) : (eftCore N ma).ReadyStable := by
+  intro s x s' ⟨v, hv⟩ hs hn
+  simp only [eftCore, pure, Except.pure] at hv hn
+  have hv := Except.ok.inj hv
+  have hn := Except.ok.inj hn
+  have hne : s.qOut ≠ [] := by intro e; rw [e] at hv; simp at hv
+  simp only [eftCore, bind, Except.bind] at hs
+  split at hs
+  · cases hs
+  · split at hs
+    · cases hs
+    · rename_i w hw e he
+      simp only [pure, Except.pure] at hs
+      cases hs
+      have hl := eftEmit_len ma s.ma _ _ _ _ e he
+      simp only at hn
+      have : e.2 = [] := by
+        cases hq : e.2 with
+        | nil => rfl
+        | cons a r => rw [hq] at hn; simp at hn
+      rw [this] at hl
+      simp only [List.length_nil, Nat.le_zero_eq] at hl
+      split at hl
+      · rename_i h1; simp at hl; omega
+      · exact hne (List.eq_nil_of_length_eq_zero hl)
+
 /-! ### TrendFlex / ReFlex / NET: the emitted value is either new or the one held before -/
 theorem flexEmit_keep (N : Nat) (lastM v : α) (q : List α) (dsum : α) (dflt : Option α) (s' : FlexState α)
     (h : flexEmit N lastM v q dsum dflt = .ok s') : (∃ o, s'.out = some o) ∨ s'.out = dflt := by
